@@ -664,17 +664,17 @@ def gen_helpers(repo, out, lines):
     lines.append("  (* PumpConfig::as_beam (PumpBeam::from sets both angles to 0) *)\n"
                  "  Definition gen_pump_of_cfg (p : pump_cfg num) (cs : crystal_setup num) : beam num :=\n"
                  f"    set_angles o {beam_new_call(X, t[1], env, 'pump')} (nQ o 0) (nQ o 0).\n")
-    # ---- set_theta_external = calc_internal_theta_from_external(self, |external|, cs); set_angles(self.phi, theta)
+    # ---- set_theta_external = calc_internal_theta_from_external(self, external, cs); set_angles(self.phi, theta)
     ste = fn("Beam", "set_theta_external", bitems, bpath)
     out.span("steps::Beam::set_theta_external", ste)
-    want = ("block", [("use",),
-                      ("let", ("pbind", "theta", False), None,
+    # (the sign of the external angle is passed on: calc_internal_theta_from_external solves for the magnitude and restores it)
+    want = ("block", [("let", ("pbind", "theta", False), None,
                        ("call", ("path", ["Self", "calc_internal_theta_from_external"]),
-                        [("path", ["self"]), ("mcall", ("path", ["external"]), "abs", []), ("path", ["crystal_setup"])])),
+                        [("path", ["self"]), ("path", ["external"]), ("path", ["crystal_setup"])])),
                       ("expr", ("mcall", ("path", ["self"]), "set_angles", [("field", ("path", ["self"]), "phi"), ("path", ["theta"])]))],
             ("path", ["self"]))
     if ste.body != want:
-        raise Untranslatable(bpath, ste.span[0], "Beam::set_theta_external differs from the model's (Snell inverse of |external|, then set_angles(self.phi, theta))")
+        raise Untranslatable(bpath, ste.span[0], "Beam::set_theta_external differs from the model's (Snell inverse of the signed external angle, then set_angles(self.phi, theta))")
     # ---- signal / idler
     for cont, role in (("SignalConfig", "signal"), ("IdlerConfig", "idler")):
         it = fn(cont, "try_as_beam")
